@@ -202,6 +202,8 @@ func (w *World) apply(ds *Doc, op sim.Op, o *Obs) {
 			ds.Tables = append(ds.Tables, d2.Body.GetTables()...)
 		}
 		w.Stats.Probe("foreign_opened")
+	case k == "tpl.render":
+		w.opTplRender(ds, op, o)
 	case strings.HasPrefix(k, "t."):
 		w.applyTable(ds, op, o)
 	case strings.HasPrefix(k, "p."):
